@@ -58,6 +58,7 @@ func run(evm *EVM, contract *Contract, input []byte, readOnly bool) ([]byte, err
 				ap, ok := p.(*AdminOP)
 				if ok {
 					ap.SetState(evm.StateDB)
+					return ap.RunFrom(contract.CallerAddress, input)
 				}
 				return p.Run(input)
 			}
